@@ -101,9 +101,9 @@ PROPS = {
     "C10": plain([part("keys", "^TestC10$", 400, 12000, shards=8, steps=40, tsteps=60)],
                  "Cases are generated call sequences (Load, Store, LoadOrStore, LoadAndStore, LoadAndDelete, Delete, Compute store/delete, pointee mutation) over "
                  "a per-type key pool that contains ==-equal keys with different representations (strings in different backing arrays, +0/-0, structs whose padding bytes are "
-                 "0xFF garbage, interface values holding equal dynamic values, the nil interface, nil and non-nil pointers) and unequal look-alikes, for 19 key types "
-                 "(string, int, int8, uint16, int32, uint64, uintptr, float32, float64, complex128, bool, pointer, array, string array, padded struct, nested struct, struct with interface "
-                 "field, any, non-empty interface), on MapOf (default / constant hasher / presized) and CacheOf. Oracle: a builtin map[K]int fed the same calls (every result, "
+                 "0xFF garbage, interface values holding equal dynamic values, the nil interface, nil and non-nil pointers) and unequal look-alikes, for 28 key types "
+                 "(string, named string, int, int8, uint8, uint16, int32, int64, uint64, uintptr, unsafe.Pointer, float32, float64, complex128, bool, pointer, struct pointer, chan, array, string array, "
+                 "array of interfaces, empty struct, padded struct, nested struct, struct with embedded struct and arrays of structs, struct with interface field, any, non-empty interface), on MapOf (default / constant hasher / presized) and CacheOf. Oracle: a builtin map[K]int fed the same calls (every result, "
                  "values handed to Compute, Range as a set, Size); any panic on a valid key is a violation. evaluations = cases; non-trivial = an ==-equal key with a different "
                  "representation was used for a lookup, or all hashes collide (constant hasher), or a lookup followed a mutation of memory the key points to; distinct by hash of (type, container, calls). "
                  "The per-process hash key varies between the shard processes."),
